@@ -189,6 +189,21 @@ def c16_2(ctx: Ctx) -> RuleResult:
         for call in calls_in(f):
             if X.at(f, call.func) == ("global", "numpy.random.default_rng"):
                 ok = f.cls is ee and f.name == "__init__"
+                if not ok and f.cls is ee and f.name.startswith("_"):
+                    # a private piece of the constructor: called from __init__ only, once (not in a loop), and creating the
+                    # generator once (not in a loop or comprehension of its own)
+                    from ..util import unique_caller
+
+                    def in_loop(node_, fn_):
+                        cur = parent(node_)
+                        while cur is not None and cur is not fn_.node:
+                            if isinstance(cur, (ast.For, ast.While, ast.ListComp, ast.SetComp, ast.DictComp, ast.GeneratorExp)):
+                                return True
+                            cur = parent(cur)
+                        return False
+
+                    uc = unique_caller(ctx, f)
+                    ok = uc is not None and uc[0].cls is ee and uc[0].name == "__init__" and not in_loop(uc[1], uc[0]) and not in_loop(call, f)
                 res.add(f, call, "generators are created only in EnsembleEvaluator.__init__ (one per evaluator, hence per step run)", ok,
                         "" if ok else "a generator created here is shared or re-created outside the per-run evaluator", construct=f"{f.qualname.split('.')[-2]}.{f.name}: default_rng")
     # the evaluator used by a run is the one constructed in that run (never a kept one)
